@@ -148,14 +148,14 @@ fn root_lvl(f: &TDDFunction) -> Option<LevelNo> {
 /// which terminal is this (by edge equality with the three terminal edges; 9 = none of them)
 fn terminal_value(f: &TDDFunction) -> V {
     f.with_manager_shared(|m, e| {
+        let mut r = 9;
         for (k, c) in [TDDFunction::f_edge(m), TDDFunction::u_edge(m), TDDFunction::t_edge(m)].into_iter().enumerate() {
-            let same = &c == e;
-            m.drop_edge(c);
-            if same {
-                return k as V;
+            if &c == e {
+                r = k as V;
             }
+            m.drop_edge(c);
         }
-        9
+        r
     })
 }
 
